@@ -27,7 +27,9 @@ LEVEL_NOTE = (
     "Trusted: CPython, fractions, read-only accessors, public constructors used by vk.recipe, vk/ref/ttsem.py (+evalx, seqsem). "
     "Constraint (A, L, U, B) is read as L <= t(B) - t(A) <= U, the orientation under which the STN's own duration constraints "
     "(start, d, d, end) are satisfiable (the docstring of STNPlan.get_constraints states the opposite sign). t(GLOBAL_END) is "
-    "taken as the latest instant of the plan. Converted-back plans that fall in a don't-care class of ttsem are not judged."
+    "taken as the latest instant of the plan. Converted-back plans that fall in a don't-care class of ttsem are not judged. "
+    "7 cases out of 8 install their fresh Environment as unified_planning.environment.GLOBAL_ENVIRONMENT (the conversion builds "
+    "helper actions in the global environment); the 8th keeps a non-global environment."
 )
 RULE = (
     "cases = (a) generated temporal problems (vk.gen.temporal, incl. timed effects/goals) with reference-guided plans, (b) "
@@ -41,7 +43,7 @@ ASSUMPTIONS = [
     "constraint orientation L <= t(B) - t(A) <= U; t(GLOBAL_START) = 0; t(GLOBAL_END) = latest instant of the plan",
 ]
 SHARD_TIMEOUT = {"quick": 600, "thorough": 5400}
-BOUNDS = {"quick": dict(n=420, tries=6, keep=2), "thorough": dict(n=6000, tries=8, keep=3)}
+BOUNDS = {"quick": dict(n=300, tries=6, keep=2), "thorough": dict(n=16000, tries=8, keep=3)}
 PROFILE_T = dict(keep_goals=0.15, invariants=0.05, undefined_init=0.03, int_params=0.1)
 PROFILE_I = dict(invariants=0.15, undefined_init=0.03, interpreted_functions=0.0, max_depth=1)
 
@@ -158,6 +160,43 @@ def nontrivial(steps):
     return False
 
 
+def _instants(step):
+    s, a, args, d = step
+    out = {s}
+    if d is not None:
+        out.add(s + d)
+        for t in a.effects:
+            out.add(ttsem._abs(t, s, d))
+        for iv in a.conditions:
+            out.update((ttsem._abs(iv.lower, s, d), ttsem._abs(iv.upper, s, d)))
+    return out
+
+
+def open_bound_within_2eps(pb, steps):
+    """The problem fixes an epsilon and some other step has an instant strictly inside (b, b + 2*eps) after a left-open
+    condition bound b (resp. inside (b - 2*eps, b) before a right-open one).  The conversion represents an open bound by an
+    artificial event at b +- eps and then separates that event from interfering events by another eps: such plans respect the
+    epsilon separation but get an over-constrained STN (one root cause, whatever the symptom)."""
+    eps = pb.epsilon
+    if eps is None:
+        return False
+    inst = [_instants(st) for st in steps]
+    for i, (s, a, args, d) in enumerate(steps):
+        if d is None:
+            continue
+        for iv in a.conditions:
+            lo, hi = ttsem._abs(iv.lower, s, d), ttsem._abs(iv.upper, s, d)
+            for j, other in enumerate(inst):
+                if j == i:
+                    continue
+                for t in other:
+                    if iv.is_left_open() and 0 < t - lo < 2 * eps:
+                        return True
+                    if iv.is_right_open() and 0 < hi - t < 2 * eps:
+                        return True
+    return False
+
+
 # ---- the monitor -------------------------------------------------------------------------------------
 def observe(pb, steps, v0, wbase, res, pid):
     from unified_planning.exceptions import UPException
@@ -197,8 +236,9 @@ def observe(pb, steps, v0, wbase, res, pid):
     except _env.INTERNAL_EXC as ex:
         viol(f"is_consistent-raises:{type(ex).__name__}@{lib_site(ex)}", f"is_consistent raised {ex!r}")
         return
+    eps_tag = "epsilon-shift-of-open-bounds-overconstrains-the-stn" if open_bound_within_2eps(pb, steps) else None
     if not cons:
-        viol("stn-inconsistent", f"the STN plan obtained from the valid plan {plan_json} is inconsistent")
+        viol(eps_tag or "stn-inconsistent", f"the STN plan obtained from the valid plan {plan_json} is inconsistent")
         return
     # 2. the original times satisfy every constraint
     tmap = {}
@@ -236,7 +276,7 @@ def observe(pb, steps, v0, wbase, res, pid):
             if (L is not None and diff < L) or (U is not None and diff > U):
                 kinds = f"{A.kind.name}->{B.kind.name}"
                 viol(
-                    "constraint-violated-by-original-times:" + ("upper" if (U is not None and diff > U) else "lower"),
+                    eps_tag or "constraint-violated-by-original-times:" + ("upper" if (U is not None and diff > U) else "lower"),
                     f"constraint {L} <= t({B}) - t({A}) <= {U} is violated by the original times ({tb} - {ta} = {diff}) [{kinds}]",
                     constraint=[str(A), str(L), str(U), str(B)],
                 )
